@@ -118,7 +118,9 @@ def main():
                                        "hand-built CFG/dataflow, abstract domains (rank, axis-sign, interval, taint, key typestate)"}],
         "checks": checks,
         "notes": "All checks are static (family: static analysis). quick = every obligation of the property; thorough = quick + "
-                 "in-memory sensitivity audit (canned breaches applied to the parsed sources must flip an obligation). "
+                 "in-memory sensitivity audit (canned breaches applied to the parsed sources must each flip an obligation; fails closed) "
+                 "+ mechanical mutation audit (every first-order mutant of the property's anchor files built in memory, the "
+                 "property's rules run on each, counts recorded in the evidence; informational). "
                  "known_findings.json lists the six genuine defects found and repaired by fix: commits in /repo.",
         "not_applicable": na,
     }
